@@ -34,7 +34,9 @@ LabelsDrift ==
 MovesWhyR ==
     IF ~FamilyOK(R.scheme, R.p, R.c) THEN "Family"
     ELSE IF R.setup # "built" THEN "NoRaiseOnValid"
-    ELSE MovesWhy(R.scheme, R.run1, R.run2, R.inb1, R.inb2)
+    ELSE IF MovesWhy(R.scheme, R.run1, R.run2, R.inb1, R.inb2) # "ok" THEN MovesWhy(R.scheme, R.run1, R.run2, R.inb1, R.inb2)
+    ELSE IF MovesKwFixed(R.scheme, R.p, R.c, R.run1, R.run2) THEN "Moves:keywords-fixed"
+    ELSE "ok"
 MovesDrift == ~R.partial /\ (FlatLen(R.run1) # MovesBlocks(R.scheme, R.p, R.c) \/ FlatLen(R.run2) # MovesBlocks(R.scheme, R.p, R.c))
 
 Why == IF R.kind = "labels" THEN LabelsWhy ELSE IF R.kind = "moves" THEN MovesWhyR ELSE "unknown-kind"
